@@ -3,7 +3,7 @@
 # Applies the patch to a scratch copy of /repo (outside /repo and /verif), extracts facts from the copy and
 # runs the named checks against it.  Prints one line per check: "<Cxx> rc=<rc> <first VIOLATION/summary line>".
 set -u
-PATCH="$1"; shift
+PATCH="$(readlink -f "$1")"; shift
 HERE="$(cd "$(dirname "$0")/.." && pwd)"
 W="$(mktemp -d /tmp/pvmut.XXXXXX)"
 trap 'rm -rf "$W"' EXIT
